@@ -13,7 +13,7 @@ RULE = ('Same two-endpoint history generator as C01 plus user terminate() calls 
 SHRINK_KEYS = ('ops',)
 ASSUMPTIONS = [
     'independent RFC 9174 parser vlib/ref9174.py',
-    'virtual GLib loop and simulated TCP as in C01; keepalive/idle timers off; no TLS',
+    'virtual GLib loop and simulated TCP as in C01 (some histories with the scripted TLS socket on both sides); keepalive/idle timers off except in the enumerated handshake cases',
 ]
 
 NEW_AFTER_TERM = 'start-after-own-sess-term'
